@@ -31,6 +31,11 @@ RunClauses(e) ==
           THEN {<<"C12.history_dependent", e.mode>>} ELSE {})
     \cup (IF e.oclass # e.fresh_oclass THEN {<<"C12.outcome_differs_from_fresh_net", e.mode>>}
           ELSE IF e.resdig # e.fresh_resdig THEN {<<"C12.result_differs_from_fresh_net", e.mode>>} ELSE {})
+    (* C07: with only_update_hydraulic_matrix / reuse_internal_data the call has the outcome and (within the solver tolerance) the   *)
+    (* results of the same call without the option on a fresh net                                                                 *)
+    \cup (IF "plain_oclass" \in DOMAIN e /\ e.plain_oclass # "" /\ e.plain_oclass # e.oclass
+          THEN {<<"C12.matrix_option_changes_outcome", e.mode>>} ELSE {})
+    \cup (IF "plain_class" \in DOMAIN e /\ e.plain_class = "other" THEN {<<"C12.matrix_option_changes_result", e.mode>>} ELSE {})
     \cup (IF e.mode = "heat" /\ e.oclass = "returned" /\ ~VecNear(e.tvec, e.seq_tvec, e.ttol)
           THEN {<<"C12.heat_differs_from_sequential", "">>} ELSE {})
 
